@@ -255,7 +255,10 @@ def emptyProg (rootName : Str) : BState :=
   { P := { nodes := [{ name := rootName }], opts := [] }, handles := [0] }
 
 /-- `New()` followed by the script -/
+def buildB (ext : Ext) (env : Env) (rootName : Str) (script : List DefOp) : Except DefErr BState :=
+  buildFrom ext env (emptyProg rootName) script
+
 def build (ext : Ext) (env : Env) (rootName : Str) (script : List DefOp) : Except DefErr Prog :=
-  (buildFrom ext env (emptyProg rootName) script).map (·.P)
+  (buildB ext env rootName script).map (·.P)
 
 end GoModel
